@@ -27,40 +27,77 @@ def xorwow_tables():
 
 
 def gen_xorwow():
+    """Writes XorwowTables.lean as soon as the tables are extracted and XorwowConsts.lean as soon
+    as the constants are, so that a failing structural pattern elsewhere never leaves stale
+    generated data behind; structural pattern failures are raised at the end."""
+    errors = []
     jump, jsub = xorwow_tables()
+    changed = write_if_changed("XorwowTables.lean", render_tables(jump, jsub))
+    try:
+        consts = extract_consts()
+        changed = write_if_changed("XorwowConsts.lean", render_consts(consts)) or changed
+    except TranslateError as e:
+        errors.append(str(e))
+    errors += structural_errors()
+    if errors:
+        raise TranslateError("; ".join(errors))
+    return changed
+
+
+def structural_errors():
+    """patterns that pin the hand-modelled control flow (no data extracted)"""
+    errs = []
+
+    def chk(pat, src, what, flags=0):
+        if not re.search(pat, src, flags):
+            errs.append(f"pattern for {what} no longer matches")
 
     eng = strip_comments(read("src/celeritas/random/XorwowRngEngine.hh"))
-    # operator(): weyl increment
+    chk(r"void XorwowRngEngine::discard_subsequence\(ull_int count\)\s*\{\s*"
+        r"this->jump\(count,\s*params_\.jump_subsequence\);\s*\}", eng,
+        "XorwowRngEngine::discard_subsequence")
+    rs = strip_comments(read("src/celeritas/random/RngReseed.cc"))
+    chk(r"init\.subsequence = event_id\.unchecked_get\(\) \* size \+ i;", rs,
+        "reseed_rng subsequence formula")
+    chk(r"init\.seed = params\.seed;", rs, "reseed_rng seed")
+    dat = strip_comments(read("src/celeritas/random/XorwowRngData.hh"))
+    chk(r"using XorwowUInt = std::uint32_t;", dat, "XorwowUInt")
+    chk(r"using JumpPoly = Array<XorwowUInt, 5>;", dat, "JumpPoly")
+    chk(r"using ArrayJumpPoly = Array<JumpPoly, 32>;", dat, "ArrayJumpPoly")
+    gc = strip_comments(read("src/celeritas/random/detail/GenerateCanonical32.hh"))
+    chk(r"constexpr float norm = ([0-9.e+-]+)f;\s*return norm \* rng\(\);", gc,
+        "GenerateCanonical32<float>")
+    return errs
+
+
+def extract_consts():
+    eng = strip_comments(read("src/celeritas/random/XorwowRngEngine.hh"))
     m = must(r"operator\(\)\(\)\s*->\s*result_type\s*\{\s*this->next\(\);\s*"
              r"state_->weylstate\s*\+=\s*(\d+)u;\s*"
              r"return\s+state_->weylstate\s*\+\s*state_->xorstate\[4\];", eng,
              "XorwowRngEngine::operator()")
-    weyl_draw = int(m.group(1))
+    c = {"weyl_draw": int(m.group(1))}
     m = must(r"void XorwowRngEngine::discard\(ull_int count\)\s*\{\s*"
              r"this->jump\(count,\s*params_\.jump\);\s*"
              r"state_->weylstate\s*\+=\s*static_cast<unsigned int>\(count\)\s*\*\s*(\d+)u;", eng,
              "XorwowRngEngine::discard")
-    weyl_disc = int(m.group(1))
-    must(r"void XorwowRngEngine::discard_subsequence\(ull_int count\)\s*\{\s*"
-         r"this->jump\(count,\s*params_\.jump_subsequence\);\s*\}", eng,
-         "XorwowRngEngine::discard_subsequence")
+    c["weyl_disc"] = int(m.group(1))
     m = must(r"void XorwowRngEngine::next\(\)\s*\{\s*auto& s = state_->xorstate;\s*"
              r"auto const t = \(s\[0\] \^ \(s\[0\] >> (\d+)u\)\);\s*"
              r"s\[0\] = s\[1\];\s*s\[1\] = s\[2\];\s*s\[2\] = s\[3\];\s*s\[3\] = s\[4\];\s*"
              r"s\[4\] = \(s\[4\] \^ \(s\[4\] << (\d+)u\)\) \^ \(t \^ \(t << (\d+)u\)\);\s*\}", eng,
              "XorwowRngEngine::next")
-    sh_a, sh_c, sh_b = int(m.group(1)), int(m.group(2)), int(m.group(3))
+    c["sh_a"], c["sh_c"], c["sh_b"] = int(m.group(1)), int(m.group(2)), int(m.group(3))
     m = must(r"constexpr size_type max_num_jump = (\d+);", eng, "max_num_jump")
-    max_num_jump = int(m.group(1))
+    c["max_num_jump"] = int(m.group(1))
     m = must(r"count >>= (\d+);", eng, "jump digit shift")
-    digit_shift = int(m.group(1))
+    c["digit_shift"] = int(m.group(1))
     m = must(r"std::uint64_t z = \(state \+= (0x[0-9a-f]+)ull\);\s*"
              r"z = \(z \^ \(z >> (\d+)\)\) \* (0x[0-9a-f]+)ull;\s*"
              r"z = \(z \^ \(z >> (\d+)\)\) \* (0x[0-9a-f]+)ull;\s*"
              r"return z \^ \(z >> (\d+)\);", eng, "SplitMix64")
-    sm = [int(m.group(1), 16), int(m.group(2)), int(m.group(3), 16), int(m.group(4)),
-          int(m.group(5), 16), int(m.group(6))]
-
+    c["sm"] = [int(m.group(1), 16), int(m.group(2)), int(m.group(3), 16), int(m.group(4)),
+               int(m.group(5), 16), int(m.group(6))]
     gc = strip_comments(read("src/celeritas/random/detail/GenerateCanonical32.hh"))
     m = must(r"constexpr double norm = ([0-9.e+-]+);\s*return norm\s*\*\s*"
              r"static_cast<double>\(\(static_cast<ull_int>\(upper\) << \((\d+)ul - (\d+)ul\)\)\s*"
@@ -68,20 +105,41 @@ def gen_xorwow():
     norm = float(m.group(1))
     if norm != 2.0 ** -53:
         raise TranslateError(f"GenerateCanonical32<double>::norm is {norm!r}, not 2^-53")
-    canon_shift = int(m.group(2)) - int(m.group(3))
-    m = must(r"constexpr float norm = ([0-9.e+-]+)f;\s*return norm \* rng\(\);", gc,
-             "GenerateCanonical32<float>")
+    c["canon_shift"] = int(m.group(2)) - int(m.group(3))
+    return c
 
-    rs = strip_comments(read("src/celeritas/random/RngReseed.cc"))
-    must(r"init\.subsequence = event_id\.unchecked_get\(\) \* size \+ i;", rs,
-         "reseed_rng subsequence formula")
-    must(r"init\.seed = params\.seed;", rs, "reseed_rng seed")
 
-    dat = strip_comments(read("src/celeritas/random/XorwowRngData.hh"))
-    must(r"using XorwowUInt = std::uint32_t;", dat, "XorwowUInt")
-    must(r"using JumpPoly = Array<XorwowUInt, 5>;", dat, "JumpPoly")
-    must(r"using ArrayJumpPoly = Array<JumpPoly, 32>;", dat, "ArrayJumpPoly")
+def render_consts(c):
+    sm = c["sm"]
+    return HEADER + f"""
+namespace CelerVerif.Generated.Xorwow
 
+/-- `state_->weylstate += <k>u` in `operator()` -/
+def weylDraw : Nat := {c["weyl_draw"]}
+/-- `static_cast<unsigned int>(count) * <k>u` in `discard` -/
+def weylDiscard : Nat := {c["weyl_disc"]}
+/-- shift amounts of `next()`: `s0 >> a`, `t << b`, `s4 << c` -/
+def shiftA : Nat := {c["sh_a"]}
+def shiftB : Nat := {c["sh_b"]}
+def shiftC : Nat := {c["sh_c"]}
+/-- `max_num_jump` (digit mask) and `count >>= k` in `jump(count, arr)` -/
+def maxNumJump : Nat := {c["max_num_jump"]}
+def digitShift : Nat := {c["digit_shift"]}
+/-- SplitMix64: increment, shift, multiplier, shift, multiplier, shift -/
+def smInc : Nat := 0x{sm[0]:x}
+def smShift1 : Nat := {sm[1]}
+def smMul1 : Nat := 0x{sm[2]:x}
+def smShift2 : Nat := {sm[3]}
+def smMul2 : Nat := 0x{sm[4]:x}
+def smShift3 : Nat := {sm[5]}
+/-- `upper << (53 - 32)` in GenerateCanonical32<double>; norm checked to be 2^-53 -/
+def canonShift : Nat := {c["canon_shift"]}
+
+end CelerVerif.Generated.Xorwow
+"""
+
+
+def render_tables(jump, jsub):
     def lean_table(name, tab):
         lines = [f"def {name} : List (List Nat) := ["]
         for i, r in enumerate(tab):
@@ -98,33 +156,7 @@ def gen_xorwow():
         lines.append("]")
         return "\n".join(lines)
 
-    consts = HEADER + f"""
-namespace CelerVerif.Generated.Xorwow
-
-/-- `state_->weylstate += <k>u` in `operator()` -/
-def weylDraw : Nat := {weyl_draw}
-/-- `static_cast<unsigned int>(count) * <k>u` in `discard` -/
-def weylDiscard : Nat := {weyl_disc}
-/-- shift amounts of `next()`: `s0 >> a`, `t << b`, `s4 << c` -/
-def shiftA : Nat := {sh_a}
-def shiftB : Nat := {sh_b}
-def shiftC : Nat := {sh_c}
-/-- `max_num_jump` (digit mask) and `count >>= k` in `jump(count, arr)` -/
-def maxNumJump : Nat := {max_num_jump}
-def digitShift : Nat := {digit_shift}
-/-- SplitMix64: increment, shift, multiplier, shift, multiplier, shift -/
-def smInc : Nat := 0x{sm[0]:x}
-def smShift1 : Nat := {sm[1]}
-def smMul1 : Nat := 0x{sm[2]:x}
-def smShift2 : Nat := {sm[3]}
-def smMul2 : Nat := 0x{sm[4]:x}
-def smShift3 : Nat := {sm[5]}
-/-- `upper << (53 - 32)` in GenerateCanonical32<double>; norm checked to be 2^-53 -/
-def canonShift : Nat := {canon_shift}
-
-end CelerVerif.Generated.Xorwow
-"""
-    tables = HEADER + f"""
+    return HEADER + f"""
 namespace CelerVerif.Generated.Xorwow
 
 /-- `XorwowRngParams::get_jump_poly`, row i = words of z^(4^i) mod P, low word first -/
@@ -139,9 +171,6 @@ namespace CelerVerif.Generated.Xorwow
 
 end CelerVerif.Generated.Xorwow
 """
-    c1 = write_if_changed("XorwowConsts.lean", consts)
-    c2 = write_if_changed("XorwowTables.lean", tables)
-    return c1 or c2
 
 
 GENERATORS = {"xorwow": gen_xorwow}
